@@ -336,12 +336,14 @@ func (ri *RouteInformation) unmarshal(b []byte) error {
 	}
 
 	// Unpack preference (with adjacent reserved bits) and lifetime values.
-	ri.PrefixLength = pl
-	ri.RouteLifetime = time.Duration(binary.BigEndian.Uint32(b[4:8])) * time.Second
-	ri.Preference = Preference((b[3] & 0x18) >> 3)
-	if err := checkPreference(ri.Preference); err != nil {
+	// Nothing is recorded for an option that is refused: the caller keeps the struct.
+	preference := Preference((b[3] & 0x18) >> 3)
+	if err := checkPreference(preference); err != nil {
 		return err
 	}
+	ri.PrefixLength = pl
+	ri.RouteLifetime = time.Duration(binary.BigEndian.Uint32(b[4:8])) * time.Second
+	ri.Preference = preference
 	ri.Prefix = CopyBytes(b[8 : 8+(pl+7)/8]) // copy every byte that holds a prefix bit (a /60 has 8)
 
 	return nil
@@ -405,8 +407,6 @@ func (r *RecursiveDNSServer) marshal() ([]byte, error) {
 func (r *RecursiveDNSServer) unmarshal(b []byte) error {
 
 	value := b[2:]
-	// Skip 2 reserved bytes to get lifetime.
-	r.Lifetime = time.Duration(binary.BigEndian.Uint32(value[2:6])) * time.Second
 
 	// Determine the number of DNS servers specified using the method described
 	// in the RFC.  Remember, length is specified in units of 8 octets.
@@ -424,6 +424,9 @@ func (r *RecursiveDNSServer) unmarshal(b []byte) error {
 	if count == 0 {
 		return errRDNSSNoServers
 	}
+
+	// Skip 2 reserved bytes to get lifetime. Nothing is recorded for an option that is refused: the caller keeps the struct.
+	r.Lifetime = time.Duration(binary.BigEndian.Uint32(value[2:6])) * time.Second
 
 	for i := 0; i < count; i++ {
 		// Determine the start and end byte offsets for each address,
